@@ -39,6 +39,12 @@ def parse_date(text) -> float | None:
 
 def gen_model_case(rng: random.Random, tier: str, backends=('dict',)) -> dict:
     n_passive = rng.choice([0, 0, 1, 2])
+    # a third of the programs have a second writer: session 1 changes flags
+    # by UID STORE between the first session's commands (strictly one
+    # command at a time, so the model stays sequential)
+    duo = rng.random() < 0.35
+    if duo:
+        n_passive = max(1, n_passive)
     n = 1 + n_passive
     tokens = Tokens()
     cfg = {'backend': rng.choice(backends), 'users': [USER],
@@ -57,6 +63,17 @@ def gen_model_case(rng: random.Random, tier: str, backends=('dict',)) -> dict:
             [5, 6, 3, 2, 2, 2, 4, 1, 1])[0]
         uid = rng.random() < 0.45
         the_set = uid_set(rng, 101, hi + 1) if uid else seq_set(rng, maxn + 1)
+        if duo and rng.random() < 0.3:
+            steps.append({'actions': [{'sess': 1, 'kind': 'noop'}],
+                          'sched_seed': None})
+            flags = ['\\Deleted'] if rng.random() < 0.5 else \
+                (flag_list(rng, KEYWORDS, allow_recent=False)
+                 or ['\\Flagged'])
+            steps.append({'actions': [{
+                'sess': 1, 'kind': 'store', 'uid': True,
+                'set': uid_set(rng, 101, hi + 1),
+                'op': rng.choice(['+', '-', '-', '']), 'flags': flags,
+                'interferer': True}], 'sched_seed': None})
         if kind == 'append':
             msgs = []
             for _ in range(1 if rng.random() < 0.7 else rng.randint(2, 3)):
@@ -108,7 +125,10 @@ def gen_model_case(rng: random.Random, tier: str, backends=('dict',)) -> dict:
                 acts.append({'sess': p, 'kind': 'noop'})
         rng.shuffle(acts)
         steps.append({'actions': acts, 'sched_seed': maybe_seed(rng, 0.4)})
-    return {'config': cfg, 'steps': steps}
+    case = {'config': cfg, 'steps': steps}
+    if duo:
+        case['duo'] = True
+    return case
 
 
 def dump_box(ctx: Ctx, name: str) -> dict | None:
@@ -333,6 +353,10 @@ def apply_command(ctx: Ctx, prop: str, model: MailModel, cl, cmd) -> list:
             return [model.selected]
         got = _fetch_seqs(cmd)
         want = {seqs[id(m)] for m in targets}
+        if ctx.case.get('duo'):
+            # the other writer's flag changes are reported here as well
+            got = {k: v for k, v in got.items() if k in want or
+                   set(v) - {b'FLAGS', b'UID'}}
         if set(got) != want:
             bad('fetch-addressed', 'FETCH %s returned seqs %s, the set '
                 'addresses %s' % (act['set'], sorted(got), sorted(want)))
@@ -360,6 +384,35 @@ def apply_command(ctx: Ctx, prop: str, model: MailModel, cl, cmd) -> list:
     return touched
 
 
+def interfere(ctx: Ctx, model: MailModel, act: dict, cmd) -> bool:
+    """UID STORE by the second writer (its view is current: it sent NOOP
+    in the step before and nothing happened in between)."""
+    cl = ctx.clients[act['sess']]
+    if cmd.result is None or not cmd.ok:
+        return True
+    box = model.box('INBOX')
+    from sim.shadow import parse_seqset
+    maxuid = box.msgs[-1].uid if box.msgs else 0
+    wanted = parse_seqset(act['set'].encode('latin-1'), maxuid)
+    if wanted is None:
+        return True
+    w = set(wanted)
+    targets = [m for m in box.msgs if m.uid in w]
+    sel = cl.shadow.selected or {}
+    perm = sel.get('permflags')
+    saved = model.permflags
+    model.permflags = None if perm is None else frozenset(
+        canon_flag(f) for f in perm)
+    try:
+        model.store(targets, act.get('op', ''), act['flags'])
+    finally:
+        model.permflags = saved
+    ctx.stat('interferer_stores')
+    return compare_box(ctx, 'C10', model, 'INBOX',
+                       '%s UID STORE by the second writer'
+                       % cmd.tag.decode())
+
+
 class C10(Profile):
     id = 'C10'
     BACKENDS = ('dict', 'dict', 'dict', 'maildir')
@@ -368,7 +421,12 @@ class C10(Profile):
     thorough_budget_s = 420.0
     batch = 15
     rule = ('one mutating session (so the model is sequential) plus 0-2 '
-            'passive sessions that only NOOP; programs of 5-40 commands over '
+            'passive sessions that only NOOP - in 35% of the programs the '
+            'second session is a second writer that, between the first '
+            'one\'s commands and strictly one command at a time, sends NOOP '
+            'and then UID STORE (+/-/replace, half of them \\Deleted), so '
+            'that the first session acts on messages whose flags changed '
+            'behind its back; programs of 5-40 commands over '
             'APPEND (1-3 messages, flags, dates)/STORE(.SILENT)/EXPUNGE/UID '
             'EXPUNGE/COPY/MOVE/FETCH(.PEEK)/CLOSE+reSELECT and UID variants, '
             'sequence sets of every shape (*, n:*, *:n, reversed, out of '
@@ -402,6 +460,10 @@ class C10(Profile):
             for i, step in enumerate(case['steps']):
                 cmds = ctx.run_step(step, i)
                 for act, cmd in zip(step['actions'], cmds):
+                    if cmd is not None and act.get('interferer'):
+                        if not interfere(ctx, model, act, cmd):
+                            break
+                        continue
                     if cmd is None or act.get('sess') != 0:
                         continue
                     cl = ctx.clients[0]
